@@ -15,7 +15,7 @@ theorem Ext.of_trace_eq {a b c : St} (h1 : Ext a b) (h : c.trace = b.trace) : Ex
 @[simp] theorem trace_bumpId (σ : St) : (bumpId σ).trace = σ.trace := rfl
 @[simp] theorem trace_setFun (σ : St) (n i) : (setFun σ n i).trace = σ.trace := rfl
 @[simp] theorem trace_setLock (σ : St) (i b) : (setLock σ i b).trace = σ.trace := rfl
-@[simp] theorem trace_addStream (σ : St) : (addStream σ).trace = σ.trace := rfl
+@[simp] theorem trace_addStream (σ : St) (b : Bool) : (addStream σ b).trace = σ.trace := rfl
 @[simp] theorem trace_closeStream (σ : St) (i) : (closeStream σ i).trace = σ.trace := rfl
 @[simp] theorem trace_setInFrame (σ : St) (f x v) : (setInFrame σ f x v).trace = σ.trace := rfl
 @[simp] theorem trace_setGlobal (σ : St) (x v) : (setGlobal σ x v).trace = σ.trace := by
@@ -34,7 +34,7 @@ theorem ext_addClosure (a σ : St) (c) : Ext a (addClosure σ c) = Ext a σ := E
 theorem ext_bumpId (a σ : St) : Ext a (bumpId σ) = Ext a σ := Ext.congr (by simp)
 theorem ext_setFun (a σ : St) (n i) : Ext a (setFun σ n i) = Ext a σ := Ext.congr (by simp)
 theorem ext_setLock (a σ : St) (i b) : Ext a (setLock σ i b) = Ext a σ := Ext.congr (by simp)
-theorem ext_addStream (a σ : St) : Ext a (addStream σ) = Ext a σ := Ext.congr (by simp)
+theorem ext_addStream (a σ : St) (b : Bool) : Ext a (addStream σ b) = Ext a σ := Ext.congr (by simp)
 theorem ext_closeStream (a σ : St) (i) : Ext a (closeStream σ i) = Ext a σ := Ext.congr (by simp)
 theorem ext_setInFrame (a σ : St) (f x v) : Ext a (setInFrame σ f x v) = Ext a σ := Ext.congr (by simp)
 theorem ext_setVar (a σ : St) (ρ x v) : Ext a (setVar σ ρ x v) = Ext a σ := Ext.congr (by simp)
@@ -52,6 +52,7 @@ theorem applyPrim_ext (p : Prim) (vs : List Obj) (σ : St) : Ext σ (applyPrim p
     | exact numResult_ext _ _
     | exact cmpResult_ext _ _ _
     | (show Ext σ (traceAdd σ _); exact List.prefix_append _ _)
+    | (show Ext σ (closeStream σ _); rw [ext_closeStream]; exact Ext.refl _)
     | split)
 
 theorem bindV_ext {σ : St} {r : Res} {k : List Obj → St → Res}
